@@ -249,8 +249,60 @@ func drawC03(rt *rapid.T) C03Scenario {
 	mainAhead := false
 	sharedTouched := false // the base branch edited a file the feature branch also has: no rebase afterwards
 	ncommits := 1 + g.pick("ncommits", detsim.Scale(6, 10))
+	// motifs: multi-commit situations that uniform choice of operations almost never lines up
+	// (a path freed by a deletion or a rename is taken over by another file, which is edited before and after)
+	type step struct {
+		op   int // fileop: 1 delete, 2 rename, 3 edit
+		p, q string
+	}
+	var script []step
+	if ks0 := sortedKeysNoBase(head); len(ks0) >= 2 {
+		y := ks0[g.pick("my", len(ks0))]
+		x := ks0[g.pick("mx", len(ks0))]
+		free := ""
+		for _, cand := range paths {
+			if _, ok := head[cand]; !ok && !excluded(cand) {
+				free = cand
+			}
+		}
+		switch g.pick("motif", 10) {
+		case 0:
+			if x != y {
+				script = []step{{3, y, ""}, {1, x, ""}, {2, y, x}, {3, x, ""}}
+			}
+		case 1:
+			if x != y && free != "" {
+				script = []step{{2, x, free}, {2, y, x}, {3, x, ""}, {3, free, ""}}
+			}
+		case 2:
+			if free != "" {
+				script = []step{{2, y, free}, {3, free, ""}}
+			}
+		case 3:
+			if free != "" {
+				script = []step{{2, y, free}, {2, free, y}, {3, y, ""}}
+			}
+		}
+		if len(script) > 0 && g.pick("mskip", 3) == 0 {
+			script = script[1:]
+		}
+	}
+	if len(script)+1 > ncommits {
+		ncommits = len(script) + 1
+	}
 	for c := 0; c < ncommits; c++ {
 		roll := g.pick("actor", 10)
+		var forced *step
+		if len(script) > 0 && roll >= 2 {
+			st := script[0]
+			script = script[1:]
+			if _, ok := head[st.p]; ok {
+				forced = &st
+				roll = 5
+			} else {
+				script = nil
+			}
+		}
 		switch {
 		case roll < 2: // base-branch maintainers
 			cm := Commit{Actor: "base", Set: map[string]*File{}, Msg: fmt.Sprintf("base %d", c)}
@@ -291,7 +343,11 @@ func drawC03(rt *rapid.T) C03Scenario {
 		default:
 			cm := Commit{Actor: "feature", Set: map[string]*File{}, Msg: fmt.Sprintf("feature %d", c)}
 			ks := sortedKeysNoBase(head)
-			switch op := g.pick("fileop", 10); {
+			op := g.pick("fileop", 10)
+			if forced != nil {
+				op = forced.op
+			}
+			switch {
 			case op == 0 && len(ks) < len(paths): // add file
 				var p string
 				for _, cand := range paths {
@@ -311,6 +367,9 @@ func drawC03(rt *rapid.T) C03Scenario {
 				}
 			case op == 1 && len(ks) > 1: // delete file
 				p := ks[g.pick("fp", len(ks))]
+				if forced != nil {
+					p = forced.p
+				}
 				delete(head, p)
 				cm.Delete = []string{p}
 				deleted[p] = origin[p]
@@ -318,9 +377,20 @@ func drawC03(rt *rapid.T) C03Scenario {
 			case op == 2 && len(ks) > 0 && len(ks) < len(paths): // pure rename
 				p := ks[g.pick("fp", len(ks))]
 				var np string
+				var freePaths []string
 				for _, cand := range paths {
 					if _, ok := head[cand]; !ok {
-						np = cand
+						freePaths = append(freePaths, cand)
+					}
+				}
+				np = freePaths[len(freePaths)-1]
+				if g.pick("anyfree", 2) == 0 {
+					np = freePaths[g.pick("np", len(freePaths))]
+				}
+				if forced != nil {
+					p, np = forced.p, forced.q
+					if _, taken := head[np]; taken {
+						continue
 					}
 				}
 				head[np] = head[p]
@@ -345,6 +415,9 @@ func drawC03(rt *rapid.T) C03Scenario {
 				nedit := 1 + g.pick("nedit", 2)
 				for e := 0; e < nedit; e++ {
 					p := ks[g.pick("fp", len(ks))]
+					if forced != nil && e == 0 {
+						p = forced.p
+					}
 					if _, done := cm.Set[p]; done {
 						continue
 					}
